@@ -159,7 +159,13 @@ fn one<X: Sx, Y: Sx>(ctx: &Ctx, idx: u64, l: usize, m: usize, all_flips: bool) {
         sign_with("truncated", format!("{k}"), &cwp[..cwp.len() - 32 * k]);
     }
     for k in 1..=3usize {
-        for (fill, nm) in [(vec![0u8; 32], "zero"), (crate::refimpl::scalar_be(&crate::c04::rand_scalar(&mut r)).to_vec(), "random"), (cwp[cwp.len() - 32..].to_vec(), "copy")] {
+        for (fill, nm) in [
+            (vec![0u8; 32], "zero"),
+            (crate::refimpl::scalar_be(&crate::c04::rand_scalar(&mut r)).to_vec(), "random"),
+            (cwp[cwp.len() - 32..].to_vec(), "copy"),
+            (vec![0xffu8; 32], "noncanonical-ff"),
+            (crate::c04::R_BE.to_vec(), "noncanonical-r"),
+        ] {
             let mut c = cwp.clone();
             for _ in 0..k {
                 c.extend_from_slice(&fill);
@@ -172,6 +178,22 @@ fn one<X: Sx, Y: Sx>(ctx: &Ctx, idx: u64, l: usize, m: usize, all_flips: bool) {
             c.extend_from_slice(&cwp[cwp.len() - 32..]);
             sign_with("extended-before-challenge", format!("{k}{nm}"), &c);
         }
+    }
+    // a non-canonical word inserted at every 32-byte boundary after the commitment point; stray octets
+    for fill in [[0xffu8; 32], crate::c04::R_BE] {
+        let mut at = 48;
+        while at <= cwp.len() {
+            let mut c = cwp[..at].to_vec();
+            c.extend_from_slice(&fill);
+            c.extend_from_slice(&cwp[at..]);
+            sign_with("noncanonical-word-inserted", format!("{}", (at - 48) / 32), &c);
+            at += 32;
+        }
+    }
+    for (k, b) in [(1usize, 0u8), (1, 0xff), (7, 0x55), (16, 0), (31, 0), (31, 0xff), (33, 1)] {
+        let mut c = cwp.clone();
+        c.extend(std::iter::repeat(b).take(k));
+        sign_with("extended-bytes", format!("{k}x{b:02x}"), &c);
     }
     // ------------------------------------------------ 2. verify_blind_sign is bound to its inputs
     let vb = |kind: &str, pos: String, pk_: &BBSplusPublicKey, h: Option<&[u8]>, ms: &[Vec<u8>], cs: &[Vec<u8>], bf: Option<&BlindFactor>| {
